@@ -1638,3 +1638,372 @@ func (m *Model) ruleWAITLOCK(r *Results) {
 		r.info(rule, "instances", "-", "no blocking receive on a channel field that the package closes")
 	}
 }
+
+// ---------------------------------------------------------------- R-WRITE-PATH
+
+// An exported mutating entry point (one that calls a document writer) reports success only after
+// it has gone through the writer: a success return that bypasses it acknowledges a write that
+// was never made (e.g. a "fast path" for an argument value that looks like a no-op).
+// Paths on which an error is known to be non-nil are exempt.
+func (m *Model) ruleWRITEPATH(r *Results) {
+	const rule = "R-WRITE-PATH"
+	a := &m.A
+	if a.CollectionType == nil || a.Allocator == nil {
+		r.undecided(rule, "anchors", "-", "collection type / allocator unresolved")
+		return
+	}
+	errT := types.Universe.Lookup("error").Type()
+	n := 0
+	for _, fn := range m.Funcs {
+		if fn.Parent() != nil || m.methodOwner(fn) != a.CollectionType || len(fn.Blocks) == 0 {
+			continue
+		}
+		if obj := fn.Object(); obj == nil || !obj.Exported() {
+			continue
+		}
+		res := fn.Signature.Results()
+		if res.Len() == 0 || !types.Identical(res.At(res.Len()-1).Type(), errT) {
+			continue
+		}
+		var writerBlocks []*ssa.BasicBlock
+		m.eachCall(fn, func(c ssa.CallInstruction) {
+			callee := c.Common().StaticCallee()
+			if callee == nil {
+				return
+			}
+			if callee == a.Allocator || callee == a.TxnRunner || m.isDocWriter(callee) {
+				writerBlocks = append(writerBlocks, c.Block())
+			}
+		})
+		if len(writerBlocks) == 0 {
+			continue
+		}
+		n++
+		// exempt: edges on which some error value is known to be non-nil
+		c := newCut()
+		for _, iff := range allIfs(fn) {
+			cd := condOf(iff)
+			eq, ok := cd.equalEdge()
+			if !ok || !(isNilConst(cd.X) || isNilConst(cd.Y)) {
+				continue
+			}
+			other := cd.X
+			if isNilConst(cd.X) {
+				other = cd.Y
+			}
+			if !types.Identical(other.Type(), errT) {
+				continue
+			}
+			for _, s := range iff.Block().Succs {
+				if s != eq {
+					c.cutEdge(iff.Block(), s)
+				}
+			}
+		}
+		for _, b := range writerBlocks {
+			c.cutBlock(b)
+		}
+		reach := entryReach(fn, c)
+		bad := ""
+		for _, ret := range returnsOf(fn) {
+			if !reach[ret.Block().Index] {
+				continue
+			}
+			ev := ret.Results[len(ret.Results)-1]
+			// a return that certainly carries an error is not a success
+			if _, isMI := ev.(*ssa.MakeInterface); isMI {
+				continue
+			}
+			if ld, ok := ev.(*ssa.UnOp); ok {
+				if _, isG := ld.X.(*ssa.Global); isG {
+					continue
+				}
+			}
+			if call, ok := ev.(*ssa.Call); ok && !isNilConst(ev) {
+				_ = call
+				continue // the error result of another call (e.g. fmt.Errorf, a validation helper)
+			}
+			if ex, ok := ev.(*ssa.Extract); ok {
+				_ = ex
+				// the error of an earlier call returned as is, without a nil test on this path: may be nil only if that call succeeded;
+				// accept when the call is not a document read (validation / encoding helpers)
+				if callV, ok := ex.Tuple.(*ssa.Call); ok {
+					if f := callV.Common().StaticCallee(); f == nil || !m.isReadFn(f) {
+						continue
+					}
+				}
+			}
+			// the caller's own callback asked for "no change" (sg-bucket's UpdateFunc contract): the
+			// return is decided by a test on results of a call of a func-typed parameter
+			cancelled := false
+			for _, ct := range controllingConds(fn, ret.Block()) {
+				cd := condOf(ct.If)
+				for _, o := range []ssa.Value{cd.X, cd.Y} {
+					if o != nil && m.fromCallbackResult(o, fn, 0, map[ssa.Value]bool{}) {
+						cancelled = true
+					}
+				}
+			}
+			if cancelled {
+				continue
+			}
+			bad = m.instrPos(ret)
+		}
+		key := m.declName(fn) + " / success only after the write"
+		r.check(bad == "", rule, key, m.pos(fn.Pos()), "every return that can report success is reached only through the document writer", "the return at "+bad+" can report success on a path that never reaches the document writer: the call is acknowledged although nothing was stored (reads do not see it, no event is delivered)")
+	}
+	if n < 10 {
+		r.undecided(rule, "instance-floor", "-", "only %d exported mutating entry points found", n)
+	}
+}
+
+// fromCallbackResult: the value is computed from a result of calling one of fn's func-typed parameters.
+func (m *Model) fromCallbackResult(v ssa.Value, fn *ssa.Function, depth int, seen map[ssa.Value]bool) bool {
+	v = stripConv(v)
+	if depth > 8 || seen[v] {
+		return false
+	}
+	seen[v] = true
+	switch x := v.(type) {
+	case *ssa.Extract:
+		return m.fromCallbackResult(x.Tuple, fn, depth+1, seen)
+	case *ssa.Call:
+		if x.Common().StaticCallee() == nil && !x.Common().IsInvoke() {
+			if p, ok := stripConv(x.Common().Value).(*ssa.Parameter); ok && p.Parent() == fn {
+				return true
+			}
+		}
+		if bi, ok := x.Common().Value.(*ssa.Builtin); ok && bi.Name() == "len" {
+			return m.fromCallbackResult(x.Common().Args[0], fn, depth+1, seen)
+		}
+	case *ssa.BinOp:
+		return m.fromCallbackResult(x.X, fn, depth+1, seen) || m.fromCallbackResult(x.Y, fn, depth+1, seen)
+	case *ssa.Phi:
+		for _, e := range x.Edges {
+			if m.fromCallbackResult(e, fn, depth+1, seen) {
+				return true
+			}
+		}
+	case *ssa.Field:
+		return m.fromCallbackResult(x.X, fn, depth+1, seen)
+	case *ssa.UnOp:
+		if x.Op == token.MUL {
+			switch a := x.X.(type) {
+			case *ssa.Alloc:
+				for _, st := range cellStores(a) {
+					if m.fromCallbackResult(st.Val, fn, depth+1, seen) {
+						return true
+					}
+				}
+			case *ssa.FieldAddr:
+				// a field of a struct the callback returned (updatedDoc.Doc ...)
+				if al, ok := stripConv(a.X).(*ssa.Alloc); ok {
+					for _, st := range cellStores(al) {
+						if m.fromCallbackResult(st.Val, fn, depth+1, seen) {
+							return true
+						}
+					}
+				}
+			}
+			return false
+		}
+		return m.fromCallbackResult(x.X, fn, depth+1, seen)
+	}
+	return false
+}
+
+// ---------------------------------------------------------------- R-FILTER-RESULT
+
+// A helper that parses a raw JSON map, lets a callback edit it, and returns the re-encoded map
+// must not hand back its *input* on a path that ran the callback: when the callback removed
+// every entry the result is "nothing", not "everything as it was".
+func (m *Model) ruleFILTERRESULT(r *Results) {
+	const rule = "R-FILTER-RESULT"
+	n := 0
+	byteSlice := func(t types.Type) bool {
+		sl, ok := t.Underlying().(*types.Slice)
+		return ok && types.Identical(sl.Elem(), types.Typ[types.Byte])
+	}
+	for _, fn := range m.Funcs {
+		if !m.inPkg(fn) || fn.Parent() != nil || len(fn.Blocks) == 0 || fn.Signature.Results().Len() < 1 || !byteSlice(fn.Signature.Results().At(0).Type()) {
+			continue
+		}
+		var P *ssa.Parameter
+		var CB *ssa.Parameter
+		for _, p := range fn.Params {
+			if byteSlice(p.Type()) {
+				P = p
+			}
+			if _, ok := p.Type().Underlying().(*types.Signature); ok {
+				CB = p
+			}
+		}
+		if P == nil || CB == nil {
+			continue
+		}
+		var cbCall ssa.CallInstruction
+		m.eachCall(fn, func(c ssa.CallInstruction) {
+			if stripConv(c.Common().Value) == ssa.Value(CB) {
+				cbCall = c
+			}
+		})
+		if cbCall == nil {
+			continue
+		}
+		n++
+		after := reachableFrom(cbCall.Block(), nil)
+		bad := ""
+		var check func(v ssa.Value, viaBlock *ssa.BasicBlock, depth int)
+		check = func(v ssa.Value, viaBlock *ssa.BasicBlock, depth int) {
+			v = stripConv(v)
+			if depth > 5 {
+				return
+			}
+			if phi, ok := v.(*ssa.Phi); ok {
+				for i, e := range phi.Edges {
+					check(e, phi.Block().Preds[i], depth+1)
+				}
+				return
+			}
+			if v == ssa.Value(P) && viaBlock != nil && after[viaBlock.Index] && (viaBlock == cbCall.Block() || cbCall.Block().Dominates(viaBlock)) {
+				bad = m.instrPos(viaBlock.Instrs[len(viaBlock.Instrs)-1])
+			}
+		}
+		for _, ret := range returnsOf(fn) {
+			check(ret.Results[0], ret.Block(), 0)
+		}
+		r.check(bad == "", rule, m.declName(fn)+" / result after the callback is the re-encoded map", m.pos(fn.Pos()), "after the callback ran, the helper returns the re-encoded map (or nothing), never its input", "on a path that ran the callback (leaving "+bad+") the helper returns its unmodified input: when the callback removed every entry, the caller gets all entries back and writes them")
+	}
+	if n == 0 {
+		r.info(rule, "instances", "-", "no parse-edit-reencode helper found")
+	}
+}
+
+// ---------------------------------------------------------------- R-XATTR-ROUNDTRIP
+
+// Stored xattrs that are decoded, edited and always re-encoded into the same place must be
+// decoded whenever they exist: a decode that is skipped under some other condition makes the
+// unconditional re-encode wipe them.
+func (m *Model) ruleXATTRROUNDTRIP(r *Results) {
+	const rule = "R-XATTR-ROUNDTRIP"
+	n := 0
+	isJSON := func(c ssa.CallInstruction, name string) bool {
+		g := c.Common().StaticCallee()
+		return g != nil && g.Pkg != nil && g.Pkg.Pkg.Path() == "encoding/json" && g.Name() == name
+	}
+	sameLoc := func(a, b ssa.Value) bool {
+		a, b = stripConv(a), stripConv(b)
+		if a == b {
+			return true
+		}
+		fa, ok1 := a.(*ssa.FieldAddr)
+		fb, ok2 := b.(*ssa.FieldAddr)
+		if !ok1 || !ok2 || fa.Field != fb.Field {
+			return false
+		}
+		xa, xb := stripConv(fa.X), stripConv(fb.X)
+		if xa == xb {
+			return true
+		}
+		la, ok1 := xa.(*ssa.UnOp)
+		lb, ok2 := xb.(*ssa.UnOp)
+		return ok1 && ok2 && la.Op == token.MUL && lb.Op == token.MUL && la.X == lb.X
+	}
+	for _, fn := range m.Funcs {
+		if !m.inPkg(fn) {
+			continue
+		}
+		var decs, encs []ssa.CallInstruction
+		m.eachCall(fn, func(c ssa.CallInstruction) {
+			if isJSON(c, "Unmarshal") {
+				decs = append(decs, c)
+			}
+			if isJSON(c, "Marshal") {
+				encs = append(encs, c)
+			}
+		})
+		for _, dec := range decs {
+			// source location and destination map cell of the decode
+			src, ok := stripConv(dec.Common().Args[0]).(*ssa.UnOp)
+			if !ok || src.Op != token.MUL {
+				continue
+			}
+			mi, ok := dec.Common().Args[1].(*ssa.MakeInterface)
+			if !ok {
+				continue
+			}
+			cell, ok := stripConv(mi.X).(*ssa.Alloc)
+			if !ok {
+				continue
+			}
+			// an encode of that map whose result is stored back where the source came from
+			var enc ssa.CallInstruction
+			for _, e := range encs {
+				emi, ok := e.Common().Args[0].(*ssa.MakeInterface)
+				if !ok {
+					continue
+				}
+				ld, ok := stripConv(emi.X).(*ssa.UnOp)
+				if !ok || ld.Op != token.MUL || ld.X != ssa.Value(cell) {
+					continue
+				}
+				if v := e.Value(); v != nil && v.Referrers() != nil {
+					for _, ref := range *v.Referrers() {
+						if ex, ok := ref.(*ssa.Extract); ok && ex.Index == 0 && ex.Referrers() != nil {
+							for _, r2 := range *ex.Referrers() {
+								if st, ok := r2.(*ssa.Store); ok && sameLoc(st.Addr, src.X) {
+									enc = e
+								}
+							}
+						}
+					}
+				}
+			}
+			if enc == nil {
+				continue
+			}
+			n++
+			// remove the decode itself and every edge on which the stored value is known to be absent:
+			// if the re-encode can still be reached, some path skips the decode although the value may exist
+			c := newCut()
+			c.cutBlock(dec.Block())
+			isSrc := func(v ssa.Value) bool {
+				v = stripConv(v)
+				if call, ok := v.(*ssa.Call); ok {
+					if bi, ok := call.Common().Value.(*ssa.Builtin); ok && bi.Name() == "len" {
+						v = stripConv(call.Common().Args[0])
+					}
+				}
+				ld, ok := v.(*ssa.UnOp)
+				return ok && ld.Op == token.MUL && sameLoc(ld.X, src.X)
+			}
+			for _, iff := range allIfs(fn) {
+				cd := condOf(iff)
+				if cd.Y == nil {
+					continue
+				}
+				switch {
+				case isSrc(cd.X) && (isNilConst(cd.Y) || isZeroConst(cd.Y)):
+					switch cd.Op {
+					case token.EQL, token.LEQ:
+						c.cutEdge(iff.Block(), cd.succWhen(true))
+					case token.NEQ, token.GTR:
+						c.cutEdge(iff.Block(), cd.succWhen(false))
+					}
+				case isSrc(cd.Y) && isNilConst(cd.X):
+					if eq, ok := cd.equalEdge(); ok {
+						c.cutEdge(iff.Block(), eq)
+					}
+				}
+			}
+			bad := ""
+			if entryReach(fn, c)[enc.Block().Index] {
+				bad = m.instrPos(enc)
+			}
+			r.check(bad == "", rule, m.declName(fn)+" / stored xattrs decoded whenever they exist", m.instrPos(dec), "the decode depends only on the stored value being present; the re-encode then writes back what was decoded plus the edits", "the re-encode at "+bad+" can be reached on a path that skipped the decode although the stored value may exist (the decode depends on more than the value being present): the stored xattrs are then replaced by an empty map")
+		}
+	}
+	if n == 0 {
+		r.info(rule, "instances", "-", "no decode / edit / re-encode round trip found")
+	}
+}
